@@ -253,3 +253,54 @@ theorem at_set_other : ∀ (q : List String) (g : Grp) (name : String) (v : Val)
         simpa [Val.set] using at_set_other p h name v hh hp
 
 end CR.Params
+
+namespace CR.Params
+
+/-- Inner step of `setAt_at` along the field list (the induction hypothesis for the rest of the path is `ih`). -/
+theorem setAtF_spec (name : String) (v : Val) (k : String) (p : List String)
+    (ih : ∀ g h : Grp, g.at p = some (.grp h) →
+      ∃ g', g.setAt name v p = some g' ∧ g'.at p = some (.grp (h.set name v))) :
+    ∀ (fs : Fields) (w h : Grp), fs.get k = some (.grp w) → w.at p = some (.grp h) →
+      ∃ fs' w', fs.setAtF name v k p = some fs' ∧ fs'.get k = some (.grp w') ∧
+        w'.at p = some (.grp (h.set name v))
+  | .nil, _, _, hg, _ => by simp [Fields.get] at hg
+  | .atom k' a r, w, h, hg, hw => by
+    by_cases h1 : k' = k
+    · simp [Fields.get, h1] at hg
+    · simp only [Fields.get, h1, if_false] at hg
+      obtain ⟨fs', w', e1, e2, e3⟩ := setAtF_spec name v k p ih r w h hg hw
+      exact ⟨.atom k' a fs', w', by simp [Fields.setAtF, h1, e1], by simp [Fields.get, h1, e2], e3⟩
+  | .grp k' g r, w, h, hg, hw => by
+    by_cases h1 : k' = k
+    · simp only [Fields.get, h1, if_true, Option.some.injEq, Val.grp.injEq] at hg
+      subst hg
+      obtain ⟨g', e1, e2⟩ := ih g h hw
+      exact ⟨.grp k' g' r, g', by simp [Fields.setAtF, h1, e1], by simp [Fields.get, h1], e2⟩
+    · simp only [Fields.get, h1, if_false] at hg
+      obtain ⟨fs', w', e1, e2, e3⟩ := setAtF_spec name v k p ih r w h hg hw
+      exact ⟨.grp k' g fs', w', by simp [Fields.setAtF, h1, e1], by simp [Fields.get, h1, e2], e3⟩
+
+/-- The path-addressed assignment `setattr(follow(root, p), name, v)` is `set name v` on the group the path
+    leads to (and it succeeds whenever the path leads to a group). -/
+theorem setAt_at : ∀ (p : List String) (g h : Grp) (name : String) (v : Val), g.at p = some (.grp h) →
+    ∃ g', g.setAt name v p = some g' ∧ g'.at p = some (.grp (h.set name v))
+  | [], g, h, name, v, hat => by
+    simp only [Grp.at, Option.some.injEq, Val.grp.injEq] at hat
+    subst hat
+    cases g with
+    | mk i fs => exact ⟨(Grp.mk i fs).set name v, by simp [Grp.setAt], by simp [Grp.at]⟩
+  | k :: p, .mk i fs, h, name, v, hat => by
+    cases hgk : fs.get k with
+    | none => simp [Grp.at, Grp.get, Grp.fields, hgk] at hat
+    | some x =>
+      cases x with
+      | atom a =>
+        simp only [Grp.at, Grp.get, Grp.fields, hgk] at hat
+        split at hat <;> simp at hat
+      | grp w =>
+        simp only [Grp.at, Grp.get, Grp.fields, hgk] at hat
+        obtain ⟨fs', w', e1, e2, e3⟩ :=
+          setAtF_spec name v k p (fun g h hh => setAt_at p g h name v hh) fs w h hgk hat
+        exact ⟨.mk i fs', by simp [Grp.setAt, e1], by simp [Grp.at, Grp.get, Grp.fields, e2, e3]⟩
+
+end CR.Params
